@@ -127,6 +127,7 @@ func c06(p *core.Prog, r *core.Report) {
 
 	c06Stamping(p, r)
 	c06RawHeader(p, r)
+	c06InitResID(p, r)
 	r.Rule("C06-R6", "E6 loops", 15, "decode loops terminate on truncated input (shared with C03)")
 	r.Alias("C03-R4", "C06-R6")
 	c03Loops(p, r)
@@ -255,6 +256,90 @@ func c06Stamping(p *core.Prog, r *core.Report) {
 // every path before the buffer is written, checks its error, and nothing else
 // writes the frame's raw buffer except the constructor, the copy of a received
 // header and the test pool's scrubbing of a released frame.
+// c06InitResID: the init res echoes the id of the init req it answers: the id
+// given to getInitMessage by the inbound handshake is the one readMessage
+// returned for the request, and getInitMessage stores its id parameter.
+func c06InitResID(p *core.Prog, r *core.Report) {
+	f := mustFunc(p, r, "", "Channel", "inboundHandshake")
+	g := mustFunc(p, r, "", "Channel", "getInitMessage")
+	if f == nil || g == nil {
+		return
+	}
+	fromRead := func(v ssa.Value) bool {
+		e, ok := v.(*ssa.Extract)
+		return ok && e.Index == 0 && callResult(e.Tuple, "Channel.readMessage") != nil
+	}
+	n := 0
+	for _, c := range core.CallsIn(f, "Channel.getInitMessage") {
+		n++
+		args := core.CallArgs(c)
+		id := args[len(args)-1]
+		ok := fromRead(id)
+		how := "the id is " + desc(id)
+		if u, isU := id.(*ssa.UnOp); isU && u.Op == token.MUL {
+			if cell, isA := u.X.(*ssa.Alloc); isA {
+				// a named result / captured local: every explicit store into
+				// it is the id readMessage returned
+				var good, other []*ssa.Store
+				var visit func(a ssa.Value)
+				visit = func(a ssa.Value) {
+					for _, ref := range *a.Referrers() {
+						switch x := ref.(type) {
+						case *ssa.Store:
+							if x.Addr == a {
+								if fromRead(x.Val) {
+									good = append(good, x)
+								} else {
+									other = append(other, x)
+								}
+							}
+						case *ssa.MakeClosure:
+							fn := x.Fn.(*ssa.Function)
+							for k, b := range x.Bindings {
+								if b == a {
+									visit(fn.FreeVars[k])
+								}
+							}
+						}
+					}
+				}
+				visit(cell)
+				// the store of readMessage's id dominates the call, and any other
+				// store is the initialisation that precedes it
+				ok = false
+				for _, gs := range good {
+					if gs.Parent() != f || !(gs.Block() == c.Block() && before(gs, c) || gs.Block() != c.Block() && gs.Block().Dominates(c.Block())) {
+						continue
+					}
+					fine := true
+					for _, o := range other {
+						_, isConst := o.Val.(*ssa.Const)
+						if !isConst || o.Parent() != f || !(o.Block() == gs.Block() && before(o, gs) || o.Block() != gs.Block() && o.Block().Dominates(gs.Block())) {
+							fine = false
+						}
+					}
+					if fine {
+						ok = true
+					}
+				}
+				how = fmt.Sprintf("%d stores of readMessage's id, %d other stores into the id variable", len(good), len(other))
+			}
+		}
+		r.Check(ok, "C06-R3", fname(f), "init res carries the id of the init req", p.Pos(c.Pos()), "getInitMessage(ctx, <id returned by readMessage>)", "the init res is not sent under the id the peer chose for its init req ("+how+")")
+	}
+	if n == 0 {
+		r.Errorf("inboundHandshake: no getInitMessage call found")
+	}
+	idF := p.Field("", "initMessage", "id")
+	ok := false
+	core.EachInstr(g, func(i ssa.Instruction) {
+		if st, isSt := i.(*ssa.Store); isSt && core.AddrField(st.Addr) == idF && len(g.Params) > 0 && st.Val == ssa.Value(g.Params[len(g.Params)-1]) {
+			ok = true
+		}
+	})
+	r.Check(ok, "C06-R3", fname(g), "initMessage.id = id parameter", p.Pos(g.Pos()), "id stored unchanged", "the init message does not carry the id it was asked to carry")
+}
+
 func c06RawHeader(p *core.Prog, r *core.Report) {
 	bufF := p.Field("", "Frame", "buffer")
 	hdrF := p.Field("", "Frame", "headerBuffer")
@@ -497,9 +582,36 @@ func c06Inside(p *core.Prog, r *core.Report) {
 		// E2: local guard on the declared size
 		fs := factsAt(s.ins.Block())
 		guard := false
+		// a constant index K needs a guard that implies "declared size > K";
+		// any comparison with the declared size is accepted for other sinks
+		var constIdx int64 = -1
+		if ia, isIA := s.ins.(*ssa.IndexAddr); isIA {
+			if k, isK := core.ConstInt(ia.Index); isK {
+				constIdx = k
+			}
+		}
+		weak := ""
 		for _, c := range fs.cmps {
-			if sizedEvidence(c.X) || sizedEvidence(c.Y) {
-				guard = true
+			if sizedEvidence(core.StripConv(c.X)) || sizedEvidence(core.StripConv(c.Y)) {
+				if constIdx < 0 {
+					guard = true
+					continue
+				}
+				x, y, op := core.StripConv(c.X), core.StripConv(c.Y), c.Op
+				if sizedEvidence(y) {
+					x, y = y, x
+					op = mirror(op)
+				}
+				lim, isK := core.ConstInt(y)
+				switch {
+				case !isK:
+					guard = true // compared with something that is not a constant: not judged here
+				case op == token.GTR && lim >= constIdx, op == token.GEQ && lim >= constIdx+1:
+					guard = true
+				default:
+					weak = fmt.Sprintf("the guard `declared size %s %d` does not imply that byte %d lies inside the declared payload", op, lim, constIdx)
+				}
+				continue
 			}
 			if lx := lenOperand(c.X); lx != nil && callResult(lx, "Frame.SizedPayload") != nil {
 				guard = true
@@ -507,6 +619,10 @@ func c06Inside(p *core.Prog, r *core.Report) {
 		}
 		if guard {
 			r.Ok("C06-R4", fn, name, pos, "dominated by a test of the declared payload size")
+			continue
+		}
+		if weak != "" {
+			r.Fail("C06-R4", fn, name, pos, weak+": for a shorter frame a stale byte of the pooled buffer is decoded")
 			continue
 		}
 		// E3: base is a *Frame parameter and every call site is dominated by a successful bounded parse of the same frame
@@ -697,6 +813,8 @@ func c06Encode(p *core.Prog, r *core.Report) {
 		}
 		r.Check(used, "C06-R5", fname(cs.Fn), "error of "+calleeShort(cs.Call)+" is used", p.Pos(cs.Call.Pos()), "result is tested or returned", "encode error discarded")
 	}
+	// R5d: the code points written verbatim into frames are the specification's
+	wireCodes(p, r, "C06-R5", "frame", "checksum", "error")
 	// R5c: relay offset constants equal the specified sums
 	var names []string
 	for n := range spec.Offsets {
